@@ -7,6 +7,7 @@
 -/
 import ProphyModel.Raw
 import ProphyModel.Spec
+import ProphyModel.Lemmas.RawLayout
 namespace Prophy.C08
 open Prophy Prophy.Raw
 
@@ -33,5 +34,29 @@ theorem C08_block_sizeof_aligned (b : Block) (h : 0 < b.align) : b.sizeof % b.al
       have := Nat.div_add_mod n b.align
       rw [Nat.mul_add]; omega
     rw [this]; simp
+
+
+/-- FULL STATEMENT: for every schema prophyc accepts (and whose member names do not imitate the
+    generated `_paddingN` members - such a schema does not even compile, finding D40), every declared
+    member of every block of the generated raw struct - optional flags and values, counters, first
+    array elements, members of each partN relative to the part - lies at the offset the wire format
+    assigns; each part is declared with the wire alignment of its block; sizeof of every fixed struct
+    and union is its wire size; a union has its discriminator at 0 and every arm at max(4, alignment) -/
+theorem C08_offsets_are_wire_offsets (n : String) (ms : List Member) (hf : Accept.front (.struct n ms) = true)
+    (hn : ∀ m ∈ ms, m.name.startsWith "_padding" = false) :
+    (Raw.structBlocks ms).map (fun b => (Raw.offsets b.fields 0).filter (fun p => !(p.1.startsWith "_padding")))
+      = Spec.blockOffsets ms := Raw.offsets_spec n ms hf hn
+
+theorem C08_part_alignments (n : String) (ms : List Member) (hf : Accept.front (.struct n ms) = true) :
+    (Raw.structBlocks ms).map (·.align) = Spec.alignMs ms :: (Spec.blocks ms).tail.map Spec.blockAlign :=
+  Raw.block_align_spec n ms hf
+
+theorem C08_sizeof_fixed (t : Ty) (hf : Accept.front t = true) (hx : Spec.fixedTy t = true) :
+    Raw.sizeofTy t = Spec.sizeTy t := Raw.sizeofTy_fixed t hf hx
+
+theorem C08_union_layout (arms : List Arm) (hn : ∀ a ∈ arms, a.name.startsWith "_padding" = false) :
+    (Raw.unionLayout arms).filter (fun p => !(p.1.startsWith "_padding"))
+      = ("discriminator", 0) :: arms.map (fun a => (a.name, max Spec.flagSize (Spec.alignArms arms))) :=
+  Raw.union_spec arms hn
 
 end Prophy.C08
